@@ -64,7 +64,7 @@ Definition qdivM (a b : Q) : M Q :=
   if Qeq_bool b 0 then raise ZeroDivisionError else ret (a / b).
 
 (* random.uniform(a, b) = a + (b - a) * random()  (CPython) *)
-Definition uniform (a b : Q) : M Q := u <- random01 ;; ret (a + (b - a) * u).
+Definition uniformM (a b : Q) : M Q := u <- random01 ;; ret (a + (b - a) * u).
 
 (* max(l, key=attrgetter(fit_attr)) *)
 Definition py_maxM (l : list ind) : M ind :=
